@@ -175,7 +175,8 @@ def map(
             )
 
     position = layers[0]["position"]
-    cell_size = layers[0]["dx"]
+    # Cell sizes and positions are mixed below: use the same unit for both
+    cell_size = layers[0]["dx"].to(position.unit)
     ndim = position.nvec
 
     thick = dz is not None
